@@ -98,7 +98,7 @@ def make_engine(run, budget, **kwargs):
     return eng
 
 
-def drive(run, eng, ops, unit, budget_fn):
+def drive(run, eng, ops, unit, budget_fn, prec=None):
     """ops: list of [name, units, force?].  Stops at the first exception."""
     for i, op in enumerate(ops):
         REC.op = i
@@ -107,8 +107,13 @@ def drive(run, eng, ops, unit, budget_fn):
         if name in ('run_for', 'update'):
             interval = tval(op[1], unit)
             force = True if name == 'update' else bool(op[2])
+            end = start + interval
+            if prec is not None:
+                # start and interval lie on the 10^-p grid, hence so does the
+                # requested end; `start + interval` in floating point may not
+                end = round(end, prec)
             REC.ev('OPSTART', name=name, interval=interval, force=force,
-                   start=start, end=start + interval)
+                   start=start, end=end)
         else:
             REC.ev('OPSTART', name=name, start=start)
         set_budget(budget_fn(op))
